@@ -71,6 +71,7 @@ type Logger struct {
 	bufferSize int
 	flushCh    chan struct{}
 	stopCh     chan struct{}
+	loops      sync.WaitGroup // flushLoop / rotationLoop
 
 	// Bulk logging (RFC 6908)
 	bulkLogging       bool
@@ -158,15 +159,27 @@ func NewLogger(cfg LoggerConfig, logger *zap.Logger) (*Logger, error) {
 
 // Start starts the background log flusher
 func (l *Logger) Start() {
-	go l.flushLoop()
+	l.loops.Add(1)
+	go func() {
+		defer l.loops.Done()
+		l.flushLoop()
+	}()
 	if l.maxAge > 0 {
-		go l.rotationLoop()
+		l.loops.Add(1)
+		go func() {
+			defer l.loops.Done()
+			l.rotationLoop()
+		}()
 	}
 }
 
 // Stop stops the logger and flushes remaining entries
 func (l *Logger) Stop() {
 	close(l.stopCh)
+	// Wait for the background loops: a flush that is in flight when the file
+	// is closed below would otherwise lose the records it has already taken
+	// out of the buffer
+	l.loops.Wait()
 	l.Flush()
 	l.FlushPortBlocks()
 	if closer, ok := l.writer.(io.Closer); ok {
